@@ -169,21 +169,28 @@ func LookupXpathFunction(
 	customFnsAllowed bool,
 	userFnCheckFn UserCustomFunctionCheckerFn,
 ) (*Symbol, bool) {
-	mu.Lock()         // Lock before accessing shared data
-	defer mu.Unlock() // Ensure the mutex is unlocked when the function exits
-
-	if !pluginsLoaded {
-		RegisterCustomFunctions(openPlugins())
-	}
-	if sym, ok := xpathFunctionTable[name]; ok {
+	sym, ok := lookupInFunctionTable(name)
+	if ok {
 		if !sym.custom || customFnsAllowed {
 			return sym, true
 		}
 	} else if userFnCheckFn != nil {
+		// Called without the lock: the checker may itself look functions up.
 		return userFnCheckFn(name)
 	}
 
 	return nil, false
+}
+
+func lookupInFunctionTable(name string) (*Symbol, bool) {
+	mu.Lock()         // Lock before accessing shared data
+	defer mu.Unlock() // Ensure the mutex is unlocked when the function exits
+
+	if !pluginsLoaded {
+		registerCustomFunctions(openPlugins())
+	}
+	sym, ok := xpathFunctionTable[name]
+	return sym, ok
 }
 
 var testedFunctionTable = make(map[string]bool)
